@@ -14,7 +14,9 @@ import (
 	"fmt"
 	"math/rand"
 	"os"
+	"strings"
 
+	"github.com/mosaicnetworks/babble/src/common"
 	"github.com/mosaicnetworks/babble/src/crypto/keys"
 	hg "github.com/mosaicnetworks/babble/src/hashgraph"
 	bnet "github.com/mosaicnetworks/babble/src/net"
@@ -61,6 +63,7 @@ func runC15(r *Result, thorough bool) {
 		"(b) Badger: every event re-read from the database after eviction and after reopen: same hash and signature, same wire info; (c) blocks and frames through encoding/json (FastForwardResponse): same body hash / frame hash, signatures still verify; " +
 		"(d) a frame's hash after a JSON round trip and after re-insertion of its maps in another order is unchanged. non-trivial: a value with nil and empty slice positions or binary payload"
 	rng := rand.New(rand.NewSource(r.Seed))
+	c15FrameTimestamp(r, rng, thorough)
 	runs := 3
 	if thorough {
 		runs = 20
@@ -379,4 +382,41 @@ func runC15(r *Result, thorough bool) {
 		}
 		r.Inc("json_event_variants", 1)
 	}
+}
+
+// c15FrameTimestamp: a frame's timestamp (part of its hash) is the median of the famous witnesses'
+// claims, collected by ranging over a map: the value must not depend on the order in which the
+// claims arrive, for any number of validators (no test uses more than 10).
+func c15FrameTimestamp(r *Result, rng *rand.Rand, thorough bool) {
+	k := 400
+	if thorough {
+		k = 5000
+	}
+	c := &Case{ID: "frame timestamp"}
+	for i := 0; i < k; i++ {
+		n := 1 + rng.Intn(64)
+		vals := []int64{}
+		base := int64(1600000000) + rng.Int63n(1000000)
+		for j := 0; j < n; j++ {
+			vals = append(vals, base+rng.Int63n(30))
+		}
+		a := append([]int64{}, vals...)
+		b := append([]int64{}, vals...)
+		rng.Shuffle(len(b), func(x, y int) { b[x], b[y] = b[y], b[x] })
+		ma, mb := common.Median(a), common.Median(b)
+		r.Inc("timestamp_lists_in_two_orders", 1)
+		if n > 16 {
+			r.Inc("timestamp_lists_of_more_than_16_witnesses", 1)
+		}
+		if ma != mb {
+			r.Violate("impl-violation", fmt.Sprintf("the timestamp of a frame depends on the order in which the %d famous witnesses are visited: %d vs %d", n, ma, mb), "frame-timestamp-order",
+				map[string]interface{}{"claims": fmt.Sprint(a), "other_order": fmt.Sprint(b)})
+		}
+		strs := []string{}
+		for _, v := range a {
+			strs = append(strs, fmt.Sprint(v))
+		}
+		c.Op("MED "+strings.Join(strs, " "), fmt.Sprintf("O %d", ma))
+	}
+	r.Compare(c)
 }
